@@ -722,7 +722,7 @@ def obligations(tier: str) -> list[dict]:
     outers = ['if', 'while', 'dowhile', 'dtd', 'pardo', 'pardof', 'pardo3', 'seq', 'foreach']
     ALLB = [B_ID, B_SAME, B_FEWER, B_MORE, B_EMPTY, B_RAISE]
     if tier == 'quick':
-        T = 900      # sized to finish in < 200 s on an idle machine; generous because the box is shared
+        T = 300
         for first in ['B1', 'B2', 'B3', 'T1', 'T2']:
             ob('fe/2items/%s,?' % first, 'fe', {'W': 3, 'items': first + ',?', 'locs': 'mixed', 'behs': [B_MORE]}, T)
         ob('fe/3items/structure', 'fe', {'W': 3, 'items': 'B,B,B', 'maxw': 2, 'rf': 'always', 'collect': 'default',
@@ -738,8 +738,11 @@ def obligations(tier: str) -> list[dict]:
                                  'rf': 'always', 'behs': [B_ID]}, T)
         for o in outers:
             if o == 'dowhile':
-                for gname, g in (('G1', G1), ('G2', G2), ('pardo', ['pardo']), ('pardof', ['pardof'])):
+                for gname, g in (('G1', G1), ('G2', G2)):
                     ob('ctl/dowhile/%s' % gname, 'ctl', {'outer': o, 'preds': ['s', 'n'], 'inner': g}, T)
+                for g in ('pardo', 'pardof'):
+                    for pk in ('s', 'n'):
+                        ob('ctl/dowhile/%s/%s' % (g, pk), 'ctl', {'outer': o, 'preds': [pk], 'inner': [g]}, T)
             else:
                 ob('ctl/%s' % o, 'ctl', {'outer': o, 'preds': ['s', 'n']}, T)
         ob('ctl/pardof3/leaves', 'ctl', {'outer': 'pardof3', 'preds': ['s'], 'depth': 1}, T)
